@@ -4,7 +4,7 @@
 
    UNBOUNDED on a fragment (C03_fragment_parses): for every tree - any number of blocks, any
    depth - built from plain paragraphs of one or more lines, ATX headings, fenced code blocks (` or ~ fences of any length, any content lines),
-   block quotes and lists of one or more items, each followed by a blank line or directly by the next (same bullet, or same delimiter with any numbers; an item followed by a blank line or holding two blocks is loose, the list is tight only if no item is) (markers
+   block quotes and lists of one or more items separated by blank lines (same bullet, or same delimiter with any numbers; the items but the last loose) (markers
    + - * and 1-9 digits with . or ), padding 1-4), siblings separated by one blank line, two
    lists never being adjacent siblings, the block tokenizer returns on the spelled text exactly
    the pre-token tree written from the tree: kinds, nesting, the line every block starts on,
@@ -57,10 +57,10 @@ Print Assumptions C03_fragment_hypotheses.
 
 (* ... and through the inline phase: the token tree of the spelled text is the tree it was written from
    (tok_of: paragraphs holding their lines as raw text separated by soft line breaks, one-line paragraphs holding raw text, one Emphasis / Strong, raw text
-   (leaf FEm: the span types must also satisfy emph_spans), quotes, lists of one or more items, each followed by a blank line or directly by the next (same bullet, or same delimiter with any numbers; an item followed by a blank line or holding two blocks is loose, the list is tight only if no item is) with the marker's attributes) *)
-From Mistletoe Require Import Proofs.EmphSimple Proofs.InertProse.
+   (leaf FEm: the span types must also satisfy emph_spans), quotes, lists of one or more items separated by blank lines (same bullet, or same delimiter with any numbers; the items but the last loose) with the marker's attributes) *)
+From Mistletoe Require Import Proofs.EmphSimple Proofs.InertProse Proofs.RefSentence Proofs.LinkSentence.
 Theorem C03_fragment_token_tree : forall types span_types keep t f ln st,
-  fragment_config types = true -> prose_spans span_types = true -> emph_spans span_types = true -> inert_spans span_types = true ->
+  fragment_config types = true -> prose_spans span_types = true -> emph_spans span_types = true -> inert_spans span_types = true -> ref_spans span_types = true ->
   wf_b t = true -> (depth t <= f)%nat ->
   make_tokens span_types keep [] (fst (fst (tokenize_block types (S f) (text_of (spell t)) ln st))) = [tok_of false t].
 Proof. exact fragment_token_tree. Qed.
@@ -76,7 +76,7 @@ Print Assumptions C03_fragment_fuel_suffices.
 
 Theorem C03_fragment_document : forall cfg t,
   fragment_config (cfg_block cfg) = true -> prose_spans (cfg_span cfg) = true -> emph_spans (cfg_span cfg) = true ->
-  inert_spans (cfg_span cfg) = true -> wf_b t = true ->
+  inert_spans (cfg_span cfg) = true -> ref_spans (cfg_span cfg) = true -> wf_b t = true ->
   fst (fst (parse_lines cfg (text_of (spell t)))) = Document [tok_of false t].
 Proof. exact fragment_document. Qed.
 Print Assumptions C03_fragment_document.
@@ -87,7 +87,7 @@ Proof. exact fragment_document_markdown. Qed.
 Print Assumptions C03_fragment_document_markdown.
 
 Theorem C03_fragment_document_configs :
-  forallb (fun c => fragment_config (cfg_block c) && prose_spans (cfg_span c) && emph_spans (cfg_span c) && inert_spans (cfg_span c))
+  forallb (fun c => fragment_config (cfg_block c) && prose_spans (cfg_span c) && emph_spans (cfg_span c) && inert_spans (cfg_span c) && ref_spans (cfg_span c))
           [cfg_html; cfg_html_nohtml; cfg_latex; cfg_mathjax; cfg_default] = true.
 Proof. exact document_configs. Qed.
 Print Assumptions C03_fragment_document_configs.
@@ -100,7 +100,7 @@ Print Assumptions C03_fragment_document_configs.
 From Mistletoe Require Import Proofs.FragmentHtml.
 Theorem C03_fragment_html : forall cfg o t,
   fragment_config (cfg_block cfg) = true -> prose_spans (cfg_span cfg) = true -> emph_spans (cfg_span cfg) = true ->
-  inert_spans (cfg_span cfg) = true -> wf_b t = true ->
+  inert_spans (cfg_span cfg) = true -> ref_spans (cfg_span cfg) = true -> wf_b t = true ->
   render_html o (fst (fst (parse_lines cfg (text_of (spell t))))) = html_f o false t ++ [10].
 Proof. exact fragment_html. Qed.
 Print Assumptions C03_fragment_html.
@@ -318,14 +318,31 @@ Print Assumptions C03_fragment_lists_instance.
    returns exactly the trees written, in order, and the HTML is their HTML joined by newlines *)
 Theorem C03_fragment_seq_document : forall cfg ts,
   fragment_config (cfg_block cfg) = true -> prose_spans (cfg_span cfg) = true -> emph_spans (cfg_span cfg) = true ->
-  inert_spans (cfg_span cfg) = true -> seq_ok_b ts = true -> forallb wf_b ts = true ->
+  inert_spans (cfg_span cfg) = true -> ref_spans (cfg_span cfg) = true -> seq_ok_b ts = true -> forallb wf_b ts = true ->
   fst (fst (parse_lines cfg (text_of (join_blank (map spell ts))))) = Document (tok_seq false ts).
 Proof. exact fragment_seq_document. Qed.
 Print Assumptions C03_fragment_seq_document.
 
 Theorem C03_fragment_seq_html : forall cfg o ts,
   fragment_config (cfg_block cfg) = true -> prose_spans (cfg_span cfg) = true -> emph_spans (cfg_span cfg) = true ->
-  inert_spans (cfg_span cfg) = true -> seq_ok_b ts = true -> forallb wf_b ts = true ->
+  inert_spans (cfg_span cfg) = true -> ref_spans (cfg_span cfg) = true -> seq_ok_b ts = true -> forallb wf_b ts = true ->
   render_html o (fst (fst (parse_lines cfg (text_of (join_blank (map spell ts)))))) = join [10%Z] (map (html_f o false) ts) ++ [10%Z].
 Proof. exact fragment_seq_html. Qed.
 Print Assumptions C03_fragment_seq_html.
+
+(* inline LINKS inside the block structure: a one-line paragraph with one inline link (leaf FLink: text, [w](dest), text - the
+   inline theorem link_in_sentence of Proofs/LinkSentence.v: scanner, bracket stack, destination and title scanners, every span
+   finder, candidate tokenizer) is a leaf of the fragment too, at every nesting depth; the span types must also satisfy ref_spans *)
+Theorem C03_link_in_sentence : forall types fn pre w dest post,
+  ref_spans types = true -> ilink_ok pre w dest post = true ->
+  Inline.tokenize_inner types fn (pre ++ [91%Z] ++ w ++ [93%Z; 40%Z] ++ dest ++ [41%Z] ++ post) = EmphSentence.raw_if pre ++ [ilink_of w dest] ++ EmphSentence.raw_if post.
+Proof. exact link_in_sentence. Qed.
+Print Assumptions C03_link_in_sentence.
+
+Theorem C03_fragment_link_instance :
+  let t := FQuote [FLink 115 $"ee " $"the site" $"http://ex.am/a_b*c?d=e#f" $", ok"; FMore (MBullet 45) 1 [FLink 97 $" " $"x" $"/y" []] false (FItem (MBullet 45) 1 [FPara 122 [] []])] in
+  wf_b t = true /\
+  text_of (spell t) = [ $"> see [the site](http://ex.am/a_b*c?d=e#f), ok" ++ [10%Z]; $"> " ++ [10%Z]; $"> - a [x](/y)" ++ [10%Z]; $"> - z" ++ [10%Z] ] /\
+  wf_b (FLink 97 [] $"x" $"a b" []) = false /\ wf_b (FLink 97 [] $"x" $"a(b)" []) = false.
+Proof. vm_compute. repeat split; reflexivity. Qed.
+Print Assumptions C03_fragment_link_instance.
